@@ -266,10 +266,10 @@ steps per hour (necessarily ≠ 0):
 * vehicle battery cycles = Σ_steps Σ_commands max(power, 0) / Σ vehicle capacities, 0 without
   capacity — as coded this is a sum of POWERS, not divided by `h` (finding N3; the oracle of the
   check uses energy).
-PARTIAL: no theorem for the standing-time aggregates (average single/total standing time, share per
-window), the average flex range per window, the average needed energy and the per-battery maxima;
-these are covered by the correspondence run and the harness oracle only. -/
-theorem C18_aggregates_partial (R : RunData α)
+The standing-time aggregates (average single/total standing time, share per window), the average flex
+range per window, the average needed energy, the per-battery maxima, and totality of the aggregation
+on well-shaped run records are stated in Properties/C18_Aggregates.lean (`C18_agg_*`). -/
+theorem C18_aggregates (R : RunData α)
     (ts : Option (List String × List (List (Cell α)))) (res : LocalResults α)
     (hfin : ∀ b ∈ myBatteries R, b.2.2 ≤ ((2 ^ 63 : Nat) : α))
     (h : aggregateLocal R ts = .ok res) :
@@ -415,7 +415,7 @@ example : schedCellPinned (fun x : ℚ => x) none = .error .typeError := rfl
 
 /-! ## non-vacuity -/
 
-/-- The hypotheses of `C18_rows`, `C18_soc_series` and `C18_aggregates_partial` are satisfiable: on
+/-- The hypotheses of `C18_rows`, `C18_soc_series` and `C18_aggregates` are satisfiable: on
 the two-step example run (Proofs/Report.lean: one station, V2G vehicle at SoC 0, battery, fixed
 load, generation, schedule, window; second step feeds in) the model returns a 19-column header and
 two 19-cell rows, whose second row shows grid supply 6, generation feed-in 5, V2G feed-in 1 and
